@@ -33,6 +33,19 @@ pub fn nonempty_partition(r: &mut Rng, d: &[u8]) -> Vec<Vec<u8>> {
     }
     out
 }
+/// sizes next to powers of two (64 … 2^20), the thresholds optimised code tends to introduce: 2^e - 2 … 2^e + 2
+pub fn ladder(r: &mut Rng, max_e: u64) -> usize {
+    let e = 6 + match r.below(8) { 0 => r.below(max_e - 5), _ => r.below((max_e - 5).min(8)) };   // mostly 64 … 8192
+    ((1u64 << e) as i64 + r.below(5) as i64 - 2).max(1) as usize
+}
+/// `n` bytes, constant except for a few distinct bytes at both ends (long inputs stay short lines)
+fn filler(r: &mut Rng, n: usize, zero_free: bool) -> Vec<u8> {
+    let b = if zero_free { 1 + (r.next() % 255) as u8 } else { r.pick8(&[0x55, 0, 0xff, 3]) };
+    let mut v = vec![b; n];
+    for k in 0..n.min(3) { v[k] = 0x10 + k as u8; let l = n - 1 - k; v[l] = 0x20 + k as u8; }
+    v
+}
+fn join_chunks_rle(c: &[Vec<u8>]) -> String { c.iter().map(|x| hex_rle(x)).collect::<Vec<_>>().join(",") }
 fn join_chunks(c: &[Vec<u8>]) -> String { c.iter().map(|x| hex(x)).collect::<Vec<_>>().join(",") }
 
 pub fn generate(stream: &str, n: usize, seed: u64, out: &mut dyn Write) {
@@ -64,6 +77,7 @@ pub fn generate(stream: &str, n: usize, seed: u64, out: &mut dyn Write) {
         "stream" => gen_stream(&mut r, n, out),
         "seipayload" => gen_seipayload(&mut r, n, out),
         "enums" => gen_enums(n, out),
+        "spshdr" => for _ in 0..n { gen_spshdr(&mut r, out); },
         _ => { eprintln!("unknown stream {}", stream); std::process::exit(2); }
     }
 }
@@ -94,7 +108,48 @@ fn directed_annexb(r: &mut Rng) -> (Vec<u8>, Vec<Vec<u8>>) {
     (d, parts)
 }
 
+/// units whose zero-free bodies, zero stuffing and push lengths sit next to powers of two; pushes end on held-back zeros
+fn gen_annexb_ladder(r: &mut Rng, out: &mut dyn Write) {
+    if r.flag() {
+        // a push that ends inside a unit on one or two zeros (the reader holds them back), then a push that contributes
+        // 2^e - 2 … 2^e bytes to the unit and either ends there, goes on, or closes the unit with a start code
+        let mut line = String::from("annexb");
+        let z = 1 + r.below(2) as usize; let mut first = vec![0u8, 0, 1, 0x65]; for _ in 0..r.below(3) { first.push(0x31); } for _ in 0..z { first.push(0); }
+        line.push_str(&format!(" p:{}", hex(&first)));
+        let e = r.pick(&[8, 10, 12, 13, 16, 16, 16, 17]); let n = (1usize << e) - r.below(3) as usize;
+        let mut second = filler(r, n, true);
+        match r.below(3) { 0 => {} 1 => { second.extend_from_slice(&[0x44, 0x45]); } _ => { second.extend_from_slice(if r.flag() { &[0, 0, 1] } else { &[0, 0, 0, 1] }); second.extend_from_slice(&[0x68, 0xce]); } }
+        line.push_str(&format!(" p:{}", hex_rle(&second)));
+        if r.flag() { line.push_str(&format!(" p:{}", hex(&[0x46, 0, 0, 1, 0x67]))); }
+        line.push_str(" r");
+        writeln!(out, "{}", line).unwrap(); return;
+    }
+    let mut d: Vec<u8> = vec![]; let mut cuts: Vec<usize> = vec![];
+    for _ in 0..r.below(2) { d.push(0); }
+    let units = 1 + r.below(3);
+    for u in 0..units {
+        d.extend_from_slice(if r.flag() { &[0, 0, 1] } else { &[0, 0, 0, 1] });
+        let big = r.below(3) == 0;
+        let me = if r.below(6) == 0 { 17 } else { 13 }; let n = if big { ladder(r, me) } else { 1 + r.below(40) as usize };
+        let body_at = d.len();
+        let mut body = filler(r, n, true);
+        // one or two payload zeros inside the body, with a push boundary right after them (held back by the reader), followed by
+        // a piece of ladder length
+        if n > 8 && r.flag() { let z = 1 + r.below(2) as usize; let at = 1 + r.below(4.min(n as u64 - 4)) as usize; for k in 0..z { body[at + k] = 0; } body[at + z] = 0x77; cuts.push(body_at + at + z);
+            if r.flag() { let piece = ladder(r, 17); if body_at + at + z + piece <= body_at + n { cuts.push(body_at + at + z + piece); } } }
+        d.extend(body);
+        if u + 1 < units || r.flag() { let z = if r.below(3) == 0 { ladder(r, 10) + r.below(4) as usize } else { r.below(6) as usize }; for _ in 0..z { d.push(0); } }
+    }
+    if r.below(3) == 0 { for _ in 0..r.below(4) { cuts.push(r.below(d.len() as u64 + 1) as usize); } }
+    cuts.retain(|&c| c > 0 && c < d.len()); cuts.sort(); cuts.dedup();
+    let mut line = String::from("annexb"); let mut i = 0;
+    for c in cuts { line.push_str(&format!(" p:{}", hex_rle(&d[i..c]))); i = c; }
+    line.push_str(&format!(" p:{} r", hex_rle(&d[i..])));
+    writeln!(out, "{}", line).unwrap();
+}
+
 fn gen_annexb(r: &mut Rng, out: &mut dyn Write) {
+    if r.below(25) == 0 { return gen_annexb_ladder(r, out); }
     let maxlen = if r.below(10) == 0 { 400 } else { 40 };
     let (d, parts) = if r.below(2) == 0 { directed_annexb(r) } else { let d = stream_bytes(r, maxlen, &[0, 0, 0, 1, 1, 2, 3, 0x65]); let p = partition(r, &d); (d, p) };
     let _ = &d;
@@ -204,7 +259,27 @@ fn gen_decodenal(r: &mut Rng, out: &mut dyn Write) {
     writeln!(out, "decodenal {}", if d.is_empty() { "-".to_string() } else { hex(&d) }).unwrap();
 }
 
+/// chunks and read sizes next to powers of two: bulk paths of the reader (gathering over seams, exact fits)
+fn gen_refnal_ladder(r: &mut Rng, out: &mut dyn Write) {
+    let nchunks = 2 + r.below(4) as usize; let mut chunks: Vec<Vec<u8>> = vec![];
+    for k in 0..nchunks { let n = if r.below(3) == 0 { 1 + r.below(12) as usize } else { ladder(r, 14) }; let mut c = filler(r, n, false); c[0] = 0x30 + k as u8; chunks.push(c); }
+    let lens: Vec<usize> = chunks.iter().map(|c| c.len()).collect();
+    let complete = r.below(4) != 0; let mut ops: Vec<String> = vec![];
+    for _ in 0..(2 + r.below(6)) {
+        match r.below(6) {
+            0 => ops.push("f".into()),
+            1 => ops.push(format!("c{}", if r.flag() { 100000 } else { r.below(2000) })),
+            2 => ops.push(if r.flag() { "cl".to_string() } else { "sw".to_string() }),
+            // a read that ends exactly on, one before or one after a seam some chunks ahead, or of ladder size
+            _ => { let upto = 1 + r.below(nchunks as u64) as usize; let sum: usize = lens[..upto].iter().sum(); ops.push(format!("r{}", match r.below(4) { 0 => sum, 1 => sum.saturating_sub(1), 2 => sum + 1, _ => ladder(r, 14) })); }
+        }
+    }
+    for _ in 0..3 { ops.push("r60000".into()); }   // (the read buffer is the caller's allocation: kept below the C03 allocation bound)
+    writeln!(out, "refnal {} {} {}", join_chunks_rle(&chunks), complete as u8, ops.join(" ")).unwrap();
+}
+
 fn gen_refnal(r: &mut Rng, out: &mut dyn Write) {
+    if r.below(25) == 0 { return gen_refnal_ladder(r, out); }
     let ml = if r.below(4) == 0 { 300 } else { 30 };
     let mut d = stream_bytes(r, ml, &[0, 0, 0, 3, 3, 1, 2, 4, 0x55]);
     if d.is_empty() { d.push((r.next() & 0xff) as u8); }
@@ -224,7 +299,26 @@ fn gen_refnal(r: &mut Rng, out: &mut dyn Write) {
     writeln!(out, "refnal {} {} {}", join_chunks(&chunks), complete as u8, ops.join(" ")).unwrap();
 }
 
+/// a NAL buffered across non-final deliveries up to sizes next to powers of two (2^20 and beyond now and then), then small NALs:
+/// capacity-dependent handling of the internal buffer must not leak bytes or decisions into the following NALs
+fn gen_acc_ladder(r: &mut Rng, out: &mut dyn Write) {
+    let mut steps = vec![];
+    let total = if r.below(12) == 0 { (1usize << 20) + r.below(300_000) as usize } else { ladder(r, 17) };
+    let pieces = 2 + r.below(3) as usize; let mut left = total;
+    for k in 0..pieces { let n = if k + 1 == pieces { left } else { (left / 2).max(1) }; left -= n.min(left);
+        let last = k + 1 == pieces; let ans = if last && r.below(3) == 0 { 'I' } else { 'B' };
+        steps.push(format!("{};{};{}", hex_rle(&filler(r, n.max(1), false)), last as u8, ans)); }
+    for _ in 0..(1 + r.below(4)) {
+        let nb = 1 + r.below(2); let bufs: Vec<Vec<u8>> = (0..nb).map(|_| { let m = if r.below(4) == 0 { 3000 } else { 6 }; let l = 1 + r.below(m) as usize; filler(r, l, false) }).collect();
+        let end = r.below(2) == 0; let ans = if r.below(4) == 0 { 'I' } else { 'B' };
+        steps.push(format!("{};{};{}", join_chunks_rle(&bufs), end as u8, ans));
+    }
+    steps.push(format!("{};1;B", hex_rle(&[0x42, 0x43])));
+    writeln!(out, "acc {}", steps.join(" ")).unwrap();
+}
+
 fn gen_acc(r: &mut Rng, out: &mut dyn Write) {
+    if r.below(60) == 0 { return gen_acc_ladder(r, out); }
     let nsteps = 1 + r.below(12);
     let mut steps = vec![];
     let policy = r.below(4); // 0: always buffer, 1: always ignore, else mixed
@@ -242,6 +336,22 @@ pub fn sei_u32(d: &mut Vec<u8>, mut v: u64) { while v >= 255 { d.push(0xff); v -
 
 fn gen_sei(r: &mut Rng, out: &mut dyn Write) {
     let mut d = vec![];
+    if r.below(40) == 0 {
+        // a message count next to a power of two (counters narrower than the count), tiny messages
+        let n = ladder(r, 10);
+        for _ in 0..n { sei_u32(&mut d, r.below(3)); let l = r.below(2); sei_u32(&mut d, l); for _ in 0..l { d.push(0x11); } }
+        if r.below(4) != 0 { d.push(0x80); }
+        let mut nal = vec![0x06u8]; nal.extend(escape(&d));
+        let chunks = if r.flag() { vec![nal.clone()] } else { nonempty_partition(r, &nal) };
+        writeln!(out, "sei {} {}", join_chunks(&chunks), (r.below(4) != 0) as u8).unwrap(); return;
+    }
+    if r.below(20) == 0 {
+        // a later message whose type is coded FF…FF 80 (128 + 255k), the data cut right after the type or after the size
+        for _ in 0..(1 + r.below(2)) { sei_u32(&mut d, r.below(6)); sei_u32(&mut d, 2); d.push(0x11); d.push(0x22); }
+        sei_u32(&mut d, 128 + 255 * (1 + r.below(3))); if r.flag() { sei_u32(&mut d, r.below(3)); }
+        let mut nal = vec![0x06u8]; nal.extend(escape(&d));
+        writeln!(out, "sei {} {}", join_chunks(&nonempty_partition(r, &nal)), (r.below(4) != 0) as u8).unwrap(); return;
+    }
     for _ in 0..r.below(4) {
         let ty = match r.below(8) { 0 => 128, 1 => 255, 2 => 510, 3 => 200 + r.below(70000), 4 => 127 + r.below(3), _ => r.below(10) };
         let len = match r.below(6) { 0 => 0, 1 => 255, 2 => 254 + r.below(3), 3 => 510, _ => r.below(6) };
@@ -258,7 +368,24 @@ fn gen_sei(r: &mut Rng, out: &mut dyn Write) {
     writeln!(out, "sei {} {}", join_chunks(&chunks), complete as u8).unwrap();
 }
 
+/// records with many well-formed parameter sets and repeated ids (later entries redefine earlier ones)
+fn gen_avcc_many(r: &mut Rng, out: &mut dyn Write) {
+    let mut d = vec![1u8, 0x42, 0xc0, 0x1e, 0xff];
+    let nsps = r.pick(&[2, 8, 20, 21, 22, 25, 31]); d.push(0xe0 | nsps as u8);
+    for _ in 0..nsps {
+        let mut w = W::default(); w.u(8, 0x42).u(8, 0xc0).u(8, r.pick(&[10, 11, 20, 30, 31, 40, 41, 51])).ue(r.below(20)).ue(0).ue(0).ue(0).ue(1).b(false).ue(r.below(20)).ue(r.below(20)).b(true).b(false).b(false).b(false);
+        let mut n = vec![0x67u8]; n.extend(escape(&w.trail())); d.push((n.len() >> 8) as u8); d.push(n.len() as u8); d.extend(n);
+    }
+    let npps = r.pick(&[0, 1, 21, 22, 30, 64, 255]); d.push(npps as u8);
+    for _ in 0..npps {
+        let mut w = W::default(); w.ue(r.below(40)).ue(r.below(20)).b(r.flag()).b(false).ue(0).ue(r.below(32)).ue(r.below(4)).b(false).u(2, 0).se(0).se(0).se(0).b(false).b(false).b(false);
+        let mut n = vec![0x68u8]; n.extend(escape(&w.trail())); d.push((n.len() >> 8) as u8); d.push(n.len() as u8); d.extend(n);
+    }
+    writeln!(out, "avcc {}", hex(&d)).unwrap();
+}
+
 fn gen_avcc(r: &mut Rng, out: &mut dyn Write) {
+    if r.below(15) == 0 { return gen_avcc_many(r, out); }
     // header bytes: every profile_idc the library names, levels from the level table (9, 11 = the Level 1b codings), compatibility with
     // each constraint flag set or clear
     let prof = if r.below(3) == 0 { r.next() as u8 } else { r.pick8(&[66, 66, 77, 88, 100, 100, 110, 122, 244, 44, 83, 86, 118, 128, 138, 139, 134, 135]) };
@@ -307,6 +434,17 @@ fn gen_bits(r: &mut Rng, out: &mut dyn Write) {
     let mut ops = vec![];
     if off > 0 { w.u(off, r.next() & 0xff); ops.push(format!("u{}", off)); }
     let style = r.below(4);
+    if style == 0 && r.below(6) == 0 {
+        // long buffers: a few data bytes, zero runs of 8..48 bytes, a late 1 bit or none, skips next to powers of two
+        let mut d: Vec<u8> = (0..(1 + r.below(4))).map(|_| r.next() as u8).collect();
+        for _ in 0..(1 + r.below(3)) { for _ in 0..(7 + r.below(42)) { d.push(0); } if r.below(3) != 0 { d.push(r.pick8(&[0x80, 0x01, 0x10, 0xff])); } }
+        for _ in 0..r.below(6) { d.push(0); }
+        let mut ops: Vec<String> = vec![];
+        for _ in 0..(1 + r.below(5)) { ops.push(match r.below(6) { 0 => "more".to_string(), 1 => format!("skip{}", ladder(r, 10)), 2 => format!("skip{}", r.below(16)), 3 => format!("u{}", r.below(33)), 4 => "more".to_string(), _ => "ue".to_string() }); }
+        ops.push("more".to_string()); ops.push(r.pick_str(&["finish", "seifinish", "more"]).to_string());
+        writeln!(out, "bits {} {}", hex(&d), ops.join(" ")).unwrap();
+        return;
+    }
     if style == 0 {
         // arbitrary bytes
         let len = r.below(12) as usize;
@@ -567,6 +705,16 @@ fn gen_syntax(r: &mut Rng, n: usize, out: &mut dyn Write, derived: bool) {
             if run.run_line(&line).starts_with("Ok") { ppss.retain(|q: &PpsInfo| q.id != info.id); ppss.push(info); }
         }
         if ppss.is_empty() { continue; }
+        if r.below(3) == 0 {
+            // a parameter set arriving after the PPS that refer to it: same id redefined (the PPS stay), or a new id
+            writeln!(out, "dump").unwrap(); count += 1;
+            for _ in 0..(1 + r.below(2)) {
+                let (d, info) = gen_sps(r);
+                let line = format!("sps {}", hex(&d)); writeln!(out, "{}", line).unwrap(); count += 1;
+                if run.run_line(&line).starts_with("Ok") { match spss.iter().position(|q| q.id == info.id) { Some(i) => spss[i] = info, None => spss.push(info) } }
+            }
+            writeln!(out, "dump").unwrap(); count += 1;
+        }
         for _ in 0..(1 + r.below(4)) {
             let (hdr, mut d) = gen_slice(r, &spss, &ppss);
             if r.below(12) == 0 { mutate(r, &mut d); }
@@ -753,6 +901,18 @@ fn gen_seipayload(r: &mut Rng, n: usize, out: &mut dyn Write) {
 
 /// exhaustive over the finite domains of C20: all header bytes, unit type ids, profile_idc, constraint flag bytes,
 /// (flags, level_idc) pairs (all 2^16 when n >= 65536, else flags in {0, 16, 255, 0xEF} x all levels), id boundary values
+/// minimal SPS over the product profile_idc x constraint flags x level_idc (named profiles and table levels three times in
+/// four, any byte otherwise): what `profile()` / `level()` of a *parsed* SPS report
+fn gen_spshdr(r: &mut Rng, out: &mut dyn Write) {
+    let prof = if r.below(4) == 0 { r.next() as u8 } else { r.pick8(&[66, 77, 88, 100, 110, 122, 244, 44, 83, 86, 118, 128, 138, 139, 134, 135]) };
+    let flags = r.next() as u8;
+    let lvl = if r.below(4) == 0 { r.next() as u8 } else { r.pick8(&[9, 10, 11, 11, 12, 13, 20, 21, 22, 30, 31, 32, 40, 41, 42, 50, 51, 52, 60, 61, 62]) };
+    let mut w = W::default(); w.u(8, prof as u64).u(8, flags as u64).u(8, lvl as u64).ue(r.below(3));
+    if [100u8, 110, 122, 244, 44, 83, 86].contains(&prof) { w.ue(1).ue(0).ue(0).b(false).b(false); }
+    w.ue(0).ue(2).ue(1).b(false).ue(r.below(20)).ue(r.below(20)).b(true).b(false).b(false).b(false);
+    writeln!(out, "derived {}", hex(&w.trail())).unwrap();
+}
+
 fn gen_enums(n: usize, out: &mut dyn Write) {
     for b in 0..=255u32 { writeln!(out, "hdr {}", b).unwrap(); writeln!(out, "unittype {}", b).unwrap(); writeln!(out, "profile {}", b).unwrap(); writeln!(out, "flags {}", b).unwrap(); }
     let fl: Vec<u32> = if n >= 65536 { (0..=255).collect() } else { vec![0, 16, 239, 255, 0x10 | 0x80, 8] };
